@@ -20,7 +20,9 @@ def gen_plan(rng, tier):
     if r < 0.16:
         from . import c18_archive
         return c18_archive.gen_plan(rng, tier)
-    mode = "cuts" if r < 0.72 else ("crash" if r < 0.88 else "live")
+    mode = "cuts" if r < 0.66 else ("crash" if r < 0.80 else "live")
+    if os.environ.get("VSIM_C18_MODE"):        # experiments only (not used by the registered commands)
+        mode = os.environ["VSIM_C18_MODE"]
     if mode == "live":
         kind = rng.choice(BIN)
     else:
@@ -59,7 +61,9 @@ def gen_plan(rng, tier):
     elif mode == "crash":
         plan["ops"] = [{"at": round(rng.uniform(0.02, 0.98), 4), "torn": round(rng.uniform(0.02, 0.98), 3)} for _ in range(rng.randint(1, 3))]
     else:
-        plan["ops"] = [{"start_at": round(rng.uniform(0.1, 0.9), 3), "advance_every": rng.choice([1, 2, 3, 5, 8]), "steps": rng.choice([1, 1, 2, 3])}]
+        plan["ops"] = [{"start_at": round(rng.uniform(0.1, 0.9), 3), "advance_every": rng.choice([1, 1, 2, 3, 5, 8]), "steps": rng.choice([1, 1, 2, 3]),
+                        "after_short": rng.choice([0, 1, 1, 2, 3])}]
+        plan["des"]["dense_splits"] = rng.random() < 0.7      # records reach the file in 2-5 pieces: torn states are the rule while the reader runs
     return plan
 
 
@@ -382,6 +386,12 @@ def execute(plan, ctx):
                     if sim.step():
                         ctx.fault("live_read")
             data = self._f.read(n)
+            if n is not None and n > 0 and len(data) < n and op.get("after_short"):
+                # adversarial but legal schedule: the writers append right after the reader came back short
+                for _ in range(op["after_short"]):
+                    if sim.step():
+                        ctx.fault("live_read")
+                        ctx.probe("append_right_after_short_read")
             return data
 
         def __enter__(self):
